@@ -805,6 +805,11 @@ func coverPlans(rng *Rand) []*pplan {
 	// every distance code 1..120
 	ps = append(ps, genPlanOpts(rng.Fork(), 0, planOpts{w: 20, h: 24, fixTs: true, allDCs: true}))
 	ps = append(ps, genPlanOpts(rng.Fork(), 0, planOpts{w: 5, h: 40, fixTs: true, allDCs: true, cacheBits: 11}))
+	// narrow images: all 120 plane codes, most of which fall on distance < 1 and are clamped to 1
+	for _, w := range []int{1, 2, 3} {
+		ps = append(ps, genPlanOpts(rng.Fork(), 0, planOpts{w: w, h: 150, fixTs: true, allDCs: true}))
+		ps = append(ps, genPlanOpts(rng.Fork(), 0, planOpts{w: w, h: 150, allDCs: true}))
+	}
 	// cache bits 11, tile bits 9 (predictor, cross-colour, meta)
 	ps = append(ps, genPlanOpts(rng.Fork(), 0, planOpts{w: 19, h: 11, fixTs: true, cacheBits: 11, metaBits: 9,
 		transforms: []ptrans{{typ: 0, bits: 9}, {typ: 1, bits: 9}}}))
